@@ -22,6 +22,9 @@ pub struct XResult {
     pub verdict: Option<bool>,
     pub expected: bool,
     pub slow: bool,
+    pub spawn_faults: u64,
+    pub write_faults: u64,
+    pub short_writes: u64,
 }
 
 struct Standin {
@@ -82,6 +85,26 @@ pub fn run_case(bins: &Binaries, case: &Case, reference: &[(String, Vec<u8>)], i
     cmd.args(&args).current_dir(in_dir).env_clear().env("PATH", path).env("VERIF_COORD_SOCK", &sock);
     // simulated CPU count for -n 0 / -m 0
     cmd.env("LD_PRELOAD", &bins.preload).env("VERIF_ENV_CPUS", case.cpus.to_string());
+    // faults inside the anthem process itself (interposed libc calls): one spawn that fails, one write to a prover's
+    // stdin that fails, short writes
+    let env_log = sock_dir.join("env.log");
+    cmd.env("VERIF_ENV_LOG", &env_log);
+    let mut rng_f = Rng::new(mix2(seed, 0xfa17));
+    for f in case.plan.faults.values() {
+        match f {
+            Fault::SpawnErr { errno } if !case.plan.spawn_all_enoent => {
+                cmd.env("VERIF_ENV_SPAWN_FAIL_AT", (1 + rng_f.below(reference.len().max(1) as u64)).to_string()).env("VERIF_ENV_SPAWN_ERRNO", errno.to_string());
+            }
+            Fault::WriteErr { errno, .. } => {
+                // some write in the middle of some hand-over (a problem is rendered in a few hundred writes)
+                cmd.env("VERIF_ENV_WRITE_FAIL_AT", (1 + rng_f.below(150 * reference.len().max(1) as u64)).to_string()).env("VERIF_ENV_WRITE_ERRNO", errno.to_string());
+            }
+            _ => {}
+        }
+    }
+    if case.plan.short_write_pct > 0 {
+        cmd.env("VERIF_ENV_WRITE_SHORT_EVERY", (100 / case.plan.short_write_pct as u64).max(2).to_string());
+    }
     cmd.stdin(Stdio::null()).stdout(Stdio::piped()).stderr(Stdio::piped());
     let mut child = cmd.spawn().map_err(|e| format!("spawn anthem: {e}"))?;
     let mut anthem_out = child.stdout.take().unwrap();
@@ -110,6 +133,7 @@ pub fn run_case(bins: &Binaries, case: &Case, reference: &[(String, Vec<u8>)], i
     let total = reference.len();
     let t0 = Instant::now();
     let mut exited = None;
+    let mut exit_seen_at: Option<Instant> = None;
     loop {
         let mut progressed = false;
         // new connections
@@ -220,7 +244,11 @@ pub fn run_case(bins: &Binaries, case: &Case, reference: &[(String, Vec<u8>)], i
             last_progress = Instant::now();
         }
         if let Some(status) = child.try_wait().map_err(|e| e.to_string())? {
-            if standins.iter().all(|s| s.released) {
+            // anthem does not wait for a prover whose hand-over failed: such a prover may still be starting up when
+            // anthem is already gone. Give stragglers a moment to report in before counting.
+            let seen = *exit_seen_at.get_or_insert_with(Instant::now);
+            let complete = standins.len() >= total || case.plan.spawn_all_enoent || seen.elapsed() > Duration::from_millis(1500);
+            if standins.iter().all(|s| s.released) && complete {
                 exited = Some(status);
                 break;
             }
@@ -237,6 +265,22 @@ pub fn run_case(bins: &Binaries, case: &Case, reference: &[(String, Vec<u8>)], i
     let stdout = out_thread.join().unwrap_or_default();
     let stderr = err_thread.join().unwrap_or_default();
     let saved = out_dir.as_ref().map(|d| exec::read_dir_files(d));
+
+    // what the interposer did inside the anthem process
+    let anthem_pid = child.id();
+    let (mut spawn_faults, mut write_faults, mut short_writes) = (0u64, 0u64, 0u64);
+    if let Ok(text) = std::fs::read_to_string(&env_log) {
+        for line in text.lines().filter(|l| l.starts_with(&format!("pid={anthem_pid} "))) {
+            for kv in line.split_whitespace() {
+                match kv.split_once('=') {
+                    Some(("spawnfaults", v)) => spawn_faults += v.parse::<u64>().unwrap_or(0),
+                    Some(("writefaults", v)) => write_faults += v.parse::<u64>().unwrap_or(0),
+                    Some(("shortwrites", v)) => short_writes += v.parse::<u64>().unwrap_or(0),
+                    _ => {}
+                }
+            }
+        }
+    }
 
     // ---- the same oracle as E1, on what the real processes did
     let mut v = vec![];
@@ -257,9 +301,13 @@ pub fn run_case(bins: &Binaries, case: &Case, reference: &[(String, Vec<u8>)], i
     let mut used = vec![0usize; total];
     let mut all_proven = !case.plan.spawn_all_enoent || total == 0;
     if exited.is_some() {
-        if !case.plan.spawn_all_enoent && standins.len() != total {
-            v.push(mk("I3-attempts", format!("{} prover processes connected for {} emitted problems", standins.len(), total)));
+        if !case.plan.spawn_all_enoent && standins.len() as u64 + spawn_faults != total as u64 {
+            v.push(mk("I3-attempts", format!("{} prover processes connected for {} emitted problems ({} spawn failure(s) injected)", standins.len(), total, spawn_faults)));
         }
+        if spawn_faults > 0 || write_faults > 0 {
+            all_proven = false;
+        }
+        let mut write_excuses = write_faults;
         for st in standins.iter().filter(|s| !s.died) {
             let (bytes, eof) = st.got.clone().unwrap_or_default();
             if st.early.is_some() && !eof {
@@ -274,6 +322,11 @@ pub fn run_case(bins: &Binaries, case: &Case, reference: &[(String, Vec<u8>)], i
                         all_proven = false;
                     }
                 }
+                None if write_excuses > 0 && reference.iter().enumerate().any(|(i, (_, b))| used[i] == 0 && b.starts_with(&bytes) && b.len() > bytes.len()) => {
+                    // the hand-over that the injected write error cut short: the prover saw a proper prefix
+                    write_excuses -= 1;
+                    all_proven = false;
+                }
                 None => {
                     all_proven = false;
                     if reference.iter().any(|(_, b)| *b == bytes) {
@@ -286,8 +339,9 @@ pub fn run_case(bins: &Binaries, case: &Case, reference: &[(String, Vec<u8>)], i
         }
         let early_n = standins.iter().filter(|s| s.early.is_some() && !s.got.as_ref().map(|g| g.1).unwrap_or(false)).count();
         let missing = used.iter().filter(|u| **u == 0).count();
-        if !case.plan.spawn_all_enoent && missing > early_n {
-            v.push(mk("I3-not-handed-over", format!("{missing} problem(s) never reached a prover ({early_n} excused)")));
+        let excused = early_n as u64 + spawn_faults + write_faults;
+        if !case.plan.spawn_all_enoent && missing as u64 > excused {
+            v.push(mk("I3-not-handed-over", format!("{missing} problem(s) never reached a prover ({excused} excused by injected faults)")));
         }
         if let Some(saved) = &saved {
             if saved != reference {
@@ -309,7 +363,7 @@ pub fn run_case(bins: &Binaries, case: &Case, reference: &[(String, Vec<u8>)], i
     if let Some(d) = out_dir {
         let _ = std::fs::remove_dir_all(d);
     }
-    Ok(XResult { violations: v, stdout, connections: standins.len(), grace_used, order, verdict, expected: all_proven, slow })
+    Ok(XResult { violations: v, stdout, connections: standins.len(), grace_used, order, verdict, expected: all_proven, slow, spawn_faults, write_faults, short_writes })
 }
 
 /// Replay file of a violation seen by the E2 engine.
@@ -345,6 +399,9 @@ pub struct XSummary {
     pub early_exit_runs: u64,
     pub out_of_order_completions: u64,
     pub slow_prover_runs: u64,
+    pub spawn_faults_fired: u64,
+    pub write_faults_fired: u64,
+    pub short_writes_fired: u64,
     pub by_instances: BTreeMap<String, u64>,
 }
 
@@ -397,7 +454,7 @@ pub fn campaign(seed: u64, n: u64, thorough: bool, workers: usize, e2_only: bool
                     case.instances = 2;
                 }
                 // keep only the fault kinds E2 can produce
-                case.plan.faults.retain(|_, f| matches!(f, Fault::EarlyExit { .. }));
+                case.plan.faults.retain(|_, f| matches!(f, Fault::EarlyExit { .. } | Fault::SpawnErr { .. } | Fault::WriteErr { .. }));
                 let fault_free = case.plan.faults.is_empty() && !case.plan.spawn_all_enoent;
                 let x = match run_case(&bins, &case, &prep.reference, &prep.in_dir, &mut scratch, mix2(seed, i), slow_case) {
                     Ok(x) => x,
@@ -446,10 +503,15 @@ pub fn campaign(seed: u64, n: u64, thorough: bool, workers: usize, e2_only: bool
                 if x.slow {
                     a.0.slow_prover_runs += 1;
                 }
+                a.0.spawn_faults_fired += x.spawn_faults;
+                a.0.write_faults_fired += x.write_faults;
+                a.0.short_writes_fired += x.short_writes;
                 for v in &x.violations {
                     a.1.push(XReplay { property: "C10".into(), engine: "E2".into(), seed, cross_case: j, slow_case, case: case.clone(), violation: v.clone(), note: "shipped binary, real threads and pipes, stand-in prover driven by the coordinator; the release order is drawn from the seed, the timing inside one quiescent step is the operating system's".into() });
                 }
-                if x.violations.is_empty() && v1.is_empty() && e1_usable {
+                // (faults injected through libc fire at different places in the two engines: no verdict comparison then)
+                let libc_faults = case.plan.faults.values().any(|f| matches!(f, Fault::SpawnErr { .. } | Fault::WriteErr { .. }));
+                if x.violations.is_empty() && v1.is_empty() && e1_usable && !libc_faults {
                     a.0.e1_e2_verdict_compared += 1;
                     if e1.verdict != x.verdict {
                         a.2.push(format!("case {j}: E1 verdict {:?} but E2 verdict {:?} although both oracles pass (model infidelity)", e1.verdict, x.verdict));
